@@ -16,7 +16,7 @@ pub fn def() -> PropDef {
     PropDef {
         info: PropInfo {
             id: "C18",
-            rule: "configuration = width (4 or 8) x 1-16 threads x per-thread engine (interpreter through register_allowed_memory, x86-64 JIT, Cranelift with the word as its packet) x per-thread addend (boundary-heavy) x per-thread base / source / counter registers (any three distinct of r0-r9) and displacement (0, short, long, extreme) x K in {1 .. 60,000} (quick) / {.. 400,000} (thorough) atomic adds per thread executed by an in-program counted loop x initial value x position of the word inside a canary-filled page; all threads start behind a barrier in a forked child. Invariant over the history: after join the word equals initial + sum(K_i * addend_i) mod 2^width and every other byte of the page is unchanged. Sub-cases: a single add changes exactly the 4/8 bytes; a misaligned atomic add under the interpreter is an Err that leaves memory unchanged. Schedules are whatever the 16 hardware threads produce (16 worker processes each running up to 16 threads: heavy oversubscription) - this is exploration of real schedules, not of all interleavings. Non-trivial = at least two threads with K >= 10,000 running on >= 2 distinct engines; distinct by hash of the configuration.",
+            rule: "configuration = width (4 or 8) x 1-16 threads x per-thread engine (x86-64 JIT; interpreter and Cranelift with the word made accessible in one of four ways: a registered range over the page and no packet, a packet that ends exactly where the word starts plus a registered range over the word, a packet that contains the word, a packet that is the word) x per-thread addend (boundary-heavy) x per-thread base / source / counter registers (any three distinct of r0-r9) and displacement (0, short, long, extreme) x K in {1 .. 60,000} (quick) / {.. 400,000} (thorough) atomic adds per thread executed by an in-program counted loop x initial value x position of the word inside a canary-filled page; all threads start behind a barrier in a forked child. Invariant over the history: after join the word equals initial + sum(K_i * addend_i) mod 2^width and every other byte of the page is unchanged. Sub-cases: a single add changes exactly the 4/8 bytes; a misaligned atomic add under the interpreter is an Err that leaves memory unchanged. Schedules are whatever the 16 hardware threads produce (16 worker processes each running up to 16 threads: heavy oversubscription) - this is exploration of real schedules, not of all interleavings. Non-trivial = at least two threads with K >= 10,000 running on >= 2 distinct engines; distinct by hash of the configuration.",
             assumptions: &["lost updates are only observable if two executions actually overlap in time: K >= 10,000 per thread and a start barrier make overlap overwhelmingly likely but not certain", "property-based testing cannot enumerate interleavings; loom/shuttle-style schedule control is a different technique"],
         },
         run,
@@ -34,6 +34,10 @@ pub struct Thr {
     regs: (u8, u8, u8),
     /// displacement of the atomic add (the base register holds address - disp)
     disp: i16,
+    /// how the word is made accessible to a checking engine: 0 = registered range over the page,
+    /// no packet; 1 = packet that ends exactly where the word starts + registered range over the
+    /// word; 2 = packet that contains the word; 3 = packet that is the word
+    access: u8,
 }
 
 impl Thr {
@@ -57,8 +61,8 @@ pub struct Cfg {
 
 fn cfg(max_k: u32) -> impl Strategy<Value = Cfg> {
     let disp = prop_oneof![2 => Just(0i16), 1 => prop::sample::select(vec![8i16, -8, 120, 127, 128, -128, -129, 2040, -2048, 32767, -32768, 4, -4, 1, -1])];
-    let thr = (0u8..3, interesting_u64(), prop_oneof![1 => 1u32..100, 3 => 10_000u32..max_k], (0u8..10, 0u8..9, 0u8..8), disp)
-        .prop_map(|(engine, addend, k, regs, disp)| Thr { engine, addend, k, regs, disp })
+    let thr = (0u8..3, interesting_u64(), prop_oneof![1 => 1u32..100, 3 => 10_000u32..max_k], (0u8..10, 0u8..9, 0u8..8), disp, 0u8..4)
+        .prop_map(|(engine, addend, k, regs, disp, access)| Thr { engine, addend, k, regs, disp, access })
         .boxed();
     (any::<bool>(), prop_oneof![1 => prop::collection::vec(thr.clone(), 1..2), 6 => prop::collection::vec(thr, 2..17)], interesting_u64(), any::<u16>(), prop_oneof![5 => Just(0u8), 1 => 1u8..8])
         .prop_map(|(wide, threads, initial, pos, misalign)| Cfg { wide, threads, initial, pos, misalign })
@@ -156,16 +160,25 @@ unsafe fn child(mem: &Mem18, c: &Cfg) {
         let engine = ENGINES[t.engine as usize % 3];
         let prog: &'static [u8] = Box::leak(program(addr, t, t.k, c.wide).into_boxed_slice());
         let barrier = barrier.clone();
+        let access = t.access % 4;
         let (range_lo, range_hi) = (base as u64, base as u64 + PAGE as u64);
         handles.push(std::thread::spawn(move || -> Result<u64, String> {
             let mut vm = AnyVm::new(VmKind::Raw, Some(prog)).map_err(|e| format!("thread {ti}: {e}"))?;
+            let (pkt_lo, pkt_len): (u64, usize) = match (engine, access) {
+                (Engine::Jit, _) | (Engine::Interp, 0) => (0, 0),
+                (_, 1) if engine == Engine::Interp => (addr - 64, 64),
+                (_, 2) => (addr - 16, 16 + w + 8),
+                _ => (addr, w),
+            };
             match engine {
-                Engine::Interp => vm.register_allowed_memory(range_lo..range_hi),
+                Engine::Interp if access == 0 => vm.register_allowed_memory(range_lo..range_hi),
+                Engine::Interp if access == 1 => vm.register_allowed_memory(addr..addr + w as u64),
+                Engine::Interp => {}
                 Engine::Jit => vm.jit_compile().map_err(|e| format!("thread {ti} jit_compile: {e}"))?,
                 Engine::Cranelift => vm.cranelift_compile().map_err(|e| format!("thread {ti} cranelift_compile: {e}"))?,
             }
             barrier.wait();
-            let pkt: &'static mut [u8] = if engine == Engine::Cranelift { std::slice::from_raw_parts_mut(addr as *mut u8, w) } else { &mut [] };
+            let pkt: &'static mut [u8] = if pkt_len == 0 { &mut [] } else { std::slice::from_raw_parts_mut(pkt_lo as *mut u8, pkt_len) };
             vm.exec(engine, pkt, &mut []).map_err(|e| format!("thread {ti} ({}): {e}", engine.name()))
         }));
     }
@@ -240,7 +253,7 @@ pub fn check(mem: &Mem18, c: &Cfg) -> Verdict {
 
 fn to_json(c: &Cfg) -> Value {
     json!({"wide": c.wide, "initial": c.initial.to_string(), "pos": c.pos, "misalign": c.misalign,
-           "threads": c.threads.iter().map(|t| json!([t.engine, t.addend.to_string(), t.k, [t.regs.0, t.regs.1, t.regs.2], t.disp])).collect::<Vec<_>>()})
+           "threads": c.threads.iter().map(|t| json!([t.engine, t.addend.to_string(), t.k, [t.regs.0, t.regs.1, t.regs.2], t.disp, t.access])).collect::<Vec<_>>()})
 }
 
 fn from_json(v: &Value) -> Option<Cfg> {
@@ -252,7 +265,8 @@ fn from_json(v: &Value) -> Option<Cfg> {
         threads: v["threads"].as_array()?.iter().map(|t| Thr { engine: t[0].as_u64().unwrap_or(0) as u8, addend: t[1].as_str().and_then(|s| s.parse().ok()).unwrap_or(1), k: t[2].as_u64().unwrap_or(1) as u32,
             // replay files written before registers / displacement were varied: r1, r2, r3, +0
             regs: (t[3][0].as_u64().unwrap_or(1) as u8, t[3][1].as_u64().unwrap_or(0) as u8, t[3][2].as_u64().unwrap_or(1) as u8),
-            disp: t[4].as_i64().unwrap_or(0) as i16 }).collect(),
+            disp: t[4].as_i64().unwrap_or(0) as i16,
+            access: t[5].as_u64().unwrap_or(0) as u8 }).collect(),
     })
 }
 
@@ -276,6 +290,9 @@ fn run(ctx: &Ctx) {
                 }
                 for t in &c.threads {
                     st.class(&format!("{}:base-r{}", ENGINES[t.engine as usize % 3].name(), t.registers().0));
+                    if t.engine % 3 != 1 {
+                        st.class(&format!("{}:{}", ENGINES[t.engine as usize % 3].name(), ["word-in-registered-range", "packet-ends-at-the-word+registered-word", "word-inside-packet", "packet-is-the-word"][if t.engine % 3 == 2 && t.access % 4 != 2 { 3 } else { t.access as usize % 4 }]));
+                    }
                 }
                 let busy: std::collections::BTreeSet<u8> = c.threads.iter().filter(|t| t.k >= 10_000).map(|t| t.engine % 3).collect();
                 if c.threads.iter().filter(|t| t.k >= 10_000).count() >= 2 && busy.len() >= 2 {
